@@ -61,41 +61,41 @@ CHECKS["C14"] = dict(
     ref="5/C14")
 
 CHECKS["C15"] = dict(
-    text="spec/CfiEval.tla is the DWARF call-frame machine as driven by .cfi_* directives (one named action per directive, outcome Ok/CFIStateError/ValueError); TLC explores every directive sequence up to length 3 (quick) / 4 (thorough) over registers {1,2}, offsets {0,8,-8}, pointer encodings with/without symbol and escapes, plus a small alphabet to length 5/7 and simulated nested remember/restore runs, checks 11 spec invariants, and emits every path as a case; each path is replayed into the real evaluate_cfi_directives under five ABIs (copy at yield, projection after exhaustion) and judged by TLC against the pure evaluator CfiRun (spec/CfiEvalOps.tla): states, copies independent, error types.",
+    text="spec/CfiEval.tla is the DWARF call-frame machine as driven by .cfi_* directives (one named action per directive, outcome Ok/CFIStateError/ValueError); TLC explores every directive sequence up to length 3 (quick) / 4 (thorough) over registers {1,2}, offsets {0,8,-8}, pointer encodings with/without symbol and escapes, plus a small alphabet to length 5/7 and simulated nested remember/restore runs, checks 11 spec invariants, and emits every path as a case; each path is replayed into the real evaluate_cfi_directives under five ABIs (copy at yield, projection after exhaustion) and judged by TLC against the pure evaluator CfiRun (spec/CfiEvalOps.tla): states, copies independent, error types. The entries of one block at several offsets are inserted into the table in ascending, descending or shuffled order, also after a protobuf round trip of the module; the expectation (CfiRun) has no notion of insertion order.",
     note="Bounded operands and lengths; escapes from a 7-entry catalogue (operand codecs belong to C14); x64-pe / ia32-pe procedures are out of domain (NotImplementedError for the return column). The ABI's default return column is taken as a parameter of the library, not judged. KF-C15-3 (.cfi_rel_offset semantics) is open and excused only when the spec under exactly that deviation predicts the run.",
     technique="exhaustive TLC state graph of a TLA+ CFA machine, every path replayed into the real evaluator, TLC trace validation",
     ref="5/C15")
 
 CHECKS["C16"] = dict(
-    text="spec/StackMachine.tla is an abstract machine for emitted code (sp, word slots, written set, register/flag tokens, ~35 event kinds); spec/AbiGen.tla (Level B) mirrors _allocate_patch_registers and the five _create_prologue_and_epilogue. TLC exhaustively enumerates ABI x clobber subset x clobbers_flags x align_stack x preserve_caller_saved x scratch count x reads x leaf x start alignment x the spelling of register names in the constraints (canonical / upper case / sub-register / mixed case), executes the designed event sequence on the machine and checks every property clause in every state; every configuration is emitted as a case and replayed into the real generators, the prologue + body + epilogue are assembled by the real Assembler, decoded by capstone into events, replayed through the same machine and judged by TLC (spec/TraceStack.tla).",
+    text="spec/StackMachine.tla is an abstract machine for emitted code (sp, word slots, written set, register/flag tokens, ~35 event kinds); spec/AbiGen.tla (Level B) mirrors _allocate_patch_registers and the five _create_prologue_and_epilogue. TLC exhaustively enumerates ABI x clobber subset x clobbers_flags x align_stack x preserve_caller_saved x scratch count x reads x leaf x start alignment x the spelling of register names in the constraints (canonical / upper case / sub-register / mixed case), executes the designed event sequence on the machine and checks every property clause in every state; every configuration is emitted as a case and replayed into the real generators, the prologue + body + epilogue are assembled by the real Assembler, decoded by capstone into events, replayed through the same machine and judged by TLC (spec/TraceStack.tla). Histories insert ONE Patch object at 2-3 sites of a single apply() (insert_at loop, AllBlocksScope, AllFunctionsScope; mixed leaf-ness) and every clause is evaluated at every site, the body being located by its own bytes so that any prologue / epilogue - even none - is judged. Requests at the end of each ABI's scratch pool (exact fit, one more) are judged against psABI candidate sets (C16_RefusesUnservable).",
     note="Trusted: capstone as observer; the instruction semantics of StackMachine.tla; the patch body as havoc of the declared resources; psABI facts. Bounds: 4 (quick) / 6 (thorough) register universes per ABI, 3-5 reads choices, scratch in {0,1,3} / {0,1,2,3,7}. An instruction that touches sp/memory and is not in the table makes a case out of domain (never observed).",
     technique="TLA+ stack machine + Level-B generator model; TLC exhaustive MC with case emission; replay with bytes-to-events decoding; TLC trace validation",
     ref="5/C16")
 CHECKS["C17"] = dict(
-    text="Same construction with spec/CallGen.tla: TLC enumerates argument lists (0..16 arguments; small/negative/imm32 and imm64 boundaries/ARM 16-bit boundaries/symbol/callable), default and custom conventions, constraint overrides producing every prologue adjustment, start alignments, and histories in which ONE CallPatch object is used at 2-3 insertion sites (direct get_asm calls and a real RewritingContext rewrite) with callables whose value depends on the insertion context; at the call it checks argument registers, stack arguments, shadow space and alignment, at the end stack neutrality. Cases are replayed into the real CallPatch(...).get_asm with its real prologue/epilogue, assembled, decoded and judged by TLC.",
+    text="Same construction with spec/CallGen.tla: TLC enumerates argument lists (0..16 arguments; small/negative/imm32 and imm64 boundaries/ARM 16-bit boundaries/symbol/callable), default and custom conventions, constraint overrides producing every prologue adjustment, start alignments, and histories in which ONE CallPatch object is used at 2-3 insertion sites (direct get_asm calls and a real RewritingContext rewrite) with callables whose value depends on the insertion context; at the call it checks argument registers, stack arguments, shadow space and alignment, at the end stack neutrality. Cases are replayed into the real CallPatch(...).get_asm with its real prologue/epilogue, assembled, decoded and judged by TLC. One CallPatch object at several sites (direct get_asm calls and real rewrites) with context-dependent callables: C17_CallableSeesItsContext plus stack neutrality and restoration at every site.",
     note="As C16; integers are byte-list tokens read back from the encoding; the expected conventions are the psABI defaults. KF-C17-2 (x86-64 stack-passed integers beyond imm32) and KF-C17-3 (x86 symbol arguments loaded instead of their address) are open and excused only under narrow signatures.",
     technique="TLA+ stack machine + Level-B call generator model; TLC exhaustive MC with case emission; replay + TLC trace validation",
     ref="5/C17")
 
 CHECKS["C18"] = dict(
-    text="spec/Retarget.tla models the module as finite relations (symbols internal/external, use sites: control-flow operands, code references, data words, CFI personality/LSDA, symbolForwarding; attributes; PIE; ABI) and defines Expected(M, map, rules): every mention of a key replaced once (chains not transitive), addend kept, attributes converted by the unique matching ABI rule, exactly the branch/call edges of the instruction whose operand was a key moved, return edges following the calls, refusals. TLC checks 17 theorems of Expected on every enumerated configuration and emits each as a case; the cases are replayed through retarget_symbol_uses + apply() and spec/TraceRetarget.tla judges Expected(observed pre) against the observed post with seven C18_* clauses.",
+    text="spec/Retarget.tla models the module as finite relations (symbols internal/external, use sites: control-flow operands, code references, data words, CFI personality/LSDA, symbolForwarding; attributes; PIE; ABI) and defines Expected(M, map, rules): every mention of a key replaced once (chains not transitive), addend kept, attributes converted by the unique matching ABI rule, exactly the branch/call edges of the instruction whose operand was a key moved, return edges following the calls, refusals. TLC checks 17 theorems of Expected on every enumerated configuration and emits each as a case; the cases are replayed through retarget_symbol_uses + apply() and spec/TraceRetarget.tla judges Expected(observed pre) against the observed post with seven C18_* clauses. Combined histories retarget A->B and delete A in one context (C18_ThenDeleted applies DelSym's Expected to the retargeted module); control transfers through the GOT slot (`call *A@GOTPCREL(%rip)`, edges with direct=False) must move with the operand while an unrelated `jmp *%rax` must not.",
     note="The pre-state is an identical build after apply() without the retargets; a conformance predicate binds the rendered module to the spec's module. Cases are a stratified seeded sample of the MC states; one control-flow instruction per block; the attribute rules are written from the psABI documents and matched abi.py on every case. KF-C18-1 (returns do not follow a retargeted call) and KF-C18-2 (MIPS32 jal not recognised as control flow) are open.",
     technique="TLC exhaustive MC of a relational TLA+ spec with case emission; real-library replay; TLC trace judgement",
     ref="5/C18")
 CHECKS["C19"] = dict(
-    text="spec/DelSym.tla models every symbol-carrying table, the CFI directives and the expressions as relations; Expected(D, del) and Outcome cover null-UUID CFI with DW_EH_PE_omit, SymbolUsesRemainingError iff an unforced deleted symbol is used, version GC with base definitions kept, libraries dropped iff emptied, and the force-merge rule. TLC checks the theorems (no trace left, only that, idempotence, stepwise = at once, version tables well-formed) in three modes (pairwise table membership, exhaustive version sharing, exhaustive three-symbol lattice); cases are replayed through delete_symbol + apply() and judged by nine C19_* clauses including a protobuf round trip.",
+    text="spec/DelSym.tla models every symbol-carrying table, the CFI directives and the expressions as relations; Expected(D, del) and Outcome cover null-UUID CFI with DW_EH_PE_omit, SymbolUsesRemainingError iff an unforced deleted symbol is used, version GC with base definitions kept, libraries dropped iff emptied, and the force-merge rule. TLC checks the theorems (no trace left, only that, idempotence, stepwise = at once, version tables well-formed) in three modes (pairwise table membership, exhaustive version sharing, exhaustive three-symbol lattice); cases are replayed through delete_symbol + apply() and judged by nine C19_* clauses including a protobuf round trip. Mode `combo` judges deletions on top of a retarget registered in the same context; mode `fwd` enumerates symbolForwarding tables in which several keys share one value (the shared target deleted alone, with a forwarder, or the forwarder alone), ELF and PE.",
     note="Sampled replay of the MC states; the lattice is exhaustive over 3-4 representative features, not all 14. A base version definition with flags BASE|WEAK is excluded from the enumeration (observation, DESIGN.md 6).",
     technique="TLC exhaustive MC of a relational TLA+ spec with case emission; real-library replay; TLC trace judgement",
     ref="5/C19")
 
 CHECKS["C10"] = dict(
-    text="TLC completely enumerates a finite space of byte-interval layouts (size <=5 quick / <=6 thorough, every initialized_size, <=3 blocks at every (offset,size) incl. zero-sized, overlapping and beyond-initialized ones, code/data kinds, alignments {2,4,8}, annotations at every offset, with and without address) and checks that a line-by-line TLA+ model of split_byte_interval / join_byte_intervals (actions Split, Grow, Annotate, Join) satisfies the Level-A clauses SplitPreserves, JoinInverts, AlignmentHolds, PaddingLegal; every layout is emitted as a case and run through the real functions under call variants (default/custom tables, alignment as argument / aux table / none, nop / nop_encodings / ABI nop / none, growth, late annotation) and through an empty RewritingContext.apply() for the 5 ABIs; TLC judges each observed run with the same operators plus EmptyApplyIdentity and Completes.",
+    text="TLC completely enumerates a finite space of byte-interval layouts (size <=5 quick / <=6 thorough, every initialized_size, <=3 blocks at every (offset,size) incl. zero-sized, overlapping and beyond-initialized ones, code/data kinds, alignments {2,4,8}, annotations at every offset, with and without address) and checks that a line-by-line TLA+ model of split_byte_interval / join_byte_intervals (actions Split, Grow, Annotate, Join) satisfies the Level-A clauses SplitPreserves, JoinInverts, AlignmentHolds, PaddingLegal; every layout is emitted as a case and run through the real functions under call variants (default/custom tables, alignment as argument / aux table / none, nop / nop_encodings / ABI nop / none, growth, late annotation) and through an empty RewritingContext.apply() for the 5 ABIs; TLC judges each observed run with the same operators plus EmptyApplyIdentity and Completes. The entries of every table are inserted in ascending, descending or shuffled order (a mapping has no order). The `alpatch` family inserts real patches containing `.align N` into modules whose alignment table is absent / empty / populated (ELF and PE) and the model has an AddAlignment action between Split and Join, so requirements added during the rewrite must hold after the join.",
     note="Exhaustive within the config bounds (exhaustive: true). Ties the code breaks by set-iteration order are existentially quantified in Level A. Level-B prediction vs observation is reported as drift (0). Blocks lie inside their interval; alignments are powers of two <= 8; default decode mode. KF-C10-1 (only the first aligned block of a group is aligned) is open.",
     technique="TLC explicit-state check of a TLA+ refinement over a completely enumerated layout space + TLC trace validation of the real code on every enumerated layout",
     ref="5/C10")
 
 CHECKS["C07"] = dict(
-    text="spec/Scopes.tla is an explicit state machine of scope registration and application: passes register (scope, patch) pairs one at a time on one shared store (Register, NewPass; function scopes refused without functions), Apply resolves sites block by block in address order (block-keyed then scope-keyed modifications, first potential offset, stable sort by (offset, id)). TLC checks ExactlyOncePerMatchingBlock, NoSiteInNonMatchingBlock, NeverAfterTerminator, OrderIsRegistrationOrder, AppliedEqualsSites, RefusalIsExact exhaustively over small modules x registration lists, emits every terminal state as a case; the cases are replayed through the real PassManager with marker patches (unique immediate chosen inside get_asm, recording the InsertionContext) and spec/TraceScopes.tla judges invocations, placement, order, context names and refusals.",
+    text="spec/Scopes.tla is an explicit state machine of scope registration and application: passes register (scope, patch) pairs one at a time on one shared store (Register, NewPass; function scopes refused without functions), Apply resolves sites block by block in address order (block-keyed then scope-keyed modifications, first potential offset, stable sort by (offset, id)). TLC checks ExactlyOncePerMatchingBlock, NoSiteInNonMatchingBlock, NeverAfterTerminator, OrderIsRegistrationOrder, AppliedEqualsSites, RefusalIsExact exhaustively over small modules x registration lists, emits every terminal state as a case; the cases are replayed through the real PassManager with marker patches (unique immediate chosen inside get_asm, recording the InsertionContext) and spec/TraceScopes.tla judges invocations, placement, order, context names and refusals. A dedicated space (`Scopes_loose_{q,t}.cfg`) has function-less code and data blocks behind function blocks (layouts head / mid / gap) with filters naming the preceding function; the clause C07_ContextFunction requires the InsertionContext's function to be the function of the named original block (none for loose blocks).",
     note="Bounds: <=3 blocks, all terminator kinds plus zero-sized and data blocks, 0-2 functions, function tables present/empty/absent, x64 ELF + ia32 PE + arm64, 1-3 passes x 0-3 registrations, name filters from a small pattern language. Conformance runs on a seeded sample of the generated cases. ANYWHERE is judged by the weak statement (an instruction boundary not after the terminator).",
     technique="TLC exhaustive model checking of the registration/application state machine, TLC-generated cases replayed into PassManager, TLC trace validation of marker positions and InsertionContexts",
     ref="5/C07")
@@ -107,12 +107,12 @@ CHECKS["C20"] = dict(
     ref="5/C20")
 
 CHECKS["C12"] = dict(
-    text="spec/Asm.tla is the streaming assembler as a state machine over tokens (one action per streamer callback mirroring _State, Finalize = the three passes). TLC exhaustively explores all token sequences up to 4 (quick) / 5 (thorough) tokens from 11-13-token vocabularies with trivially_unreachable and implicit_cfi in BOOLEAN and checks on every final state the Level-A clauses Decode, Tiling, TerminatorsEndBlocks, EdgeShape, Fallthrough, Labels, DataConversion, Operands, Alignment, Completes. A seeded sample of the emitted programs is rendered for 11 targets (x64 AT&T/Intel, IA32, ARM64, MIPS32 x ELF/PE, PIE on x86 ELF), assembled by the real Assembler, decoded token-guided with capstone, and judged by TLC with the same operators.",
+    text="spec/Asm.tla is the streaming assembler as a state machine over tokens (one action per streamer callback mirroring _State, Finalize = the three passes). TLC exhaustively explores all token sequences up to 4 (quick) / 5 (thorough) tokens from 11-13-token vocabularies with trivially_unreachable and implicit_cfi in BOOLEAN and checks on every final state the Level-A clauses Decode, Tiling, TerminatorsEndBlocks, EdgeShape, Fallthrough, Labels, DataConversion, Operands, Alignment, Completes. A seeded sample of the emitted programs is rendered for 11 targets (x64 AT&T/Intel, IA32, ARM64, MIPS32 x ELF/PE, PIE on x86 ELF), assembled by the real Assembler, decoded token-guided with capstone, and judged by TLC with the same operators. Further vocabularies: `ops` (ARM64 / MIPS operands whose addend or relocation modifier is invisible in the bytes: literal loads, :lo12:, :got:, %hi/%lo/%got, with addends; transfers to targets with an addend must be refused), `str` / `strc` (string literals and stand-alone NULs, across section switches and chunks: C12_Strings), constant branch targets.",
     note="Model checking exhaustive within the configs; conformance sampled (4 000 quick / 60 000 thorough). Level-B drift is reported, never a verdict (0). One fixed rendering per token and target; data-token lengths come from the spec, instruction sizes are observed. KF-C12-1 (MIPS32 jr $ra gets a branch edge, not a return) is open.",
     technique="TLA+/TLC model checking of a token-level assembler machine with spec->code case generation and code->spec trace validation",
     ref="5/C12")
 CHECKS["C13"] = dict(
-    text="The same state machine over the symbol vocabulary (module symbol sets, allow_undef) and over all chunkings of token sequences: invariants for the MultipleDefinitions/Undef error discipline with per-chunk label visibility, Binding, TempSuffix, and Chunking (chunked result = whole emission with a .text switch at former chunk boundaries). Cases run through the real Assembler chunk by chunk and whole; a third of the single-chunk cases are also inserted with RewritingContext + AllBlocksScope at N in {1,2,3,5} sites (constraints forcing prologue/epilogue chunks) for UniqueNames and Completes.",
+    text="The same state machine over the symbol vocabulary (module symbol sets, allow_undef) and over all chunkings of token sequences: invariants for the MultipleDefinitions/Undef error discipline with per-chunk label visibility, Binding, TempSuffix, and Chunking (chunked result = whole emission with a .text switch at former chunk boundaries). Cases run through the real Assembler chunk by chunk and whole; a third of the single-chunk cases are also inserted with RewritingContext + AllBlocksScope at N in {1,2,3,5} sites (constraints forcing prologue/epilogue chunks) for UniqueNames and Completes. Constant assignments (`name = v`, `.set`) take part in the MultipleDefinitions discipline across chunks (C13_Assignments). spec/AsmRw.tla models RewritingContext._patch_id numbering and get_or_insert_extern_symbol: real rewrites with several insertions and inserted functions re-using one temporary label, and extern requests for names that already exist in any form, are judged by C13_UniqueAcrossPatches and C13_ExternBinding.",
     note="Chunking domain: no forward cross-chunk reference, CFI balanced per chunk, each chunk starts in .text. Rewrites are in domain only for the 5 ABI targets. KF-C13-1 (a patch with an empty section crashes apply()) is open.",
     technique="TLA+/TLC model checking with spec->code case generation and code->spec trace validation",
     ref="5/C13")
